@@ -12,6 +12,11 @@ import (
 // "optional"=true, are treated as required and go to the RequiredKeys constraint of the parent object.
 type RequiredKeys struct {
 	keys []string
+
+	// shortcuts tells, for each of the keys, whether it is a key shortcut
+	// (`@type: value`). An object may have a property spelled like it
+	// (`"@type": value`) as well, these are two entries.
+	shortcuts []bool
 }
 
 var (
@@ -41,8 +46,20 @@ func (c RequiredKeys) Keys() []string {
 	return c.keys
 }
 
+// IsShortcut reports whether the key with the given index is a key shortcut.
+func (c RequiredKeys) IsShortcut(i int) bool {
+	return c.shortcuts[i]
+}
+
 func (c *RequiredKeys) AddKey(key string) {
 	c.keys = append(c.keys, key)
+	c.shortcuts = append(c.shortcuts, false)
+}
+
+// AddShortcutKey adds a required key shortcut (`@type: value`).
+func (c *RequiredKeys) AddShortcutKey(key string) {
+	c.keys = append(c.keys, key)
+	c.shortcuts = append(c.shortcuts, true)
 }
 
 func (c RequiredKeys) ASTNode() jschema.RuleASTNode {
